@@ -8,9 +8,9 @@ CONSTANTS
   MaxNodes = 1
   MaxStack = 1
   BugOptionalDropsNone = FALSE
-  FixedStar = FALSE
-  FixedFinalInString = FALSE
-  FixedNestedLiteral = FALSE
+  FixedStar = TRUE
+  FixedFinalInString = TRUE
+  FixedNestedLiteral = TRUE
   AnnChoices = {"noann", "int", "QA", "T"}
   DefaultChoices = {"none", "int:1", "..."}
   RetChoices = {"noann", "int", "QA"}
